@@ -3321,8 +3321,12 @@ def auto_chunks(chunks, shape, limit, dtype, previous_chunks=None):
     limit = max(1, limit)
     chunksize_tolerance = config.get("array.chunk-size-tolerance")
 
+    # Zero-length dimensions make the array empty: any chunking fits the limit.
+    # Count them as one element so that they do not zero out the block size.
     largest_block = math.prod(
-        cs if isinstance(cs, Number) else max(cs) for cs in chunks if cs != "auto"
+        max(1, cs if isinstance(cs, Number) else max(cs))
+        for cs in chunks
+        if cs != "auto"
     )
 
     if previous_chunks:
